@@ -8,10 +8,10 @@ PID = "C07"
 MANIFEST_ENTRY = {
  "level_claimed": {
   "category": "proof",
-  "text": "proof (partial: per component, not for a model of the whole runtime). Theorems in coq/Properties/C07.v: for ALL operand values the index/length arithmetic and slicing at every inventoried panic site reachable from execute_current_instruction cannot reach its Panic point -- GarnishNumber operations (shift counts, MIN / -1, zero divisors), number->usize casts, equality/make_list register arithmetic, item getters and index_list/char/byte/symbol list on both stores (negative, fractional, NaN, huge indexes), range length / range access / make_range, ~# range->list, Simple's end_list placement, association probing and slice-of-concatenation window, the iterators, Basic's block-relative addressing, extents (reversed, clamped), association/end_list/conversion slices, pop_frame, binary search, reallocation copy, bytes->i32, the depth bound of the recursive renderers -- each under the part of the store invariant it names; a run of a machine whose step is safe never panics (C07_run_from_step); C07_full_statement (one step of the real runtime from the global store invariant) stays a Definition. The inventory of potential panic sites (unwrap/expect/indexing/slicing/panicking macros/usize arithmetic/casts/std calls that panic/recursion) is regenerated from /repo on every run and every site must be classified in tools/panic_map.json (model+lemma, argument, out of scope as verified against the name-based call graph); the index models are run against both data implementations; a boundary-value search (every instruction x operand type pairs x boundary values, every ~# cast, nested slices/concatenations, 10^5-deep data, grammar-generated programs with boundary literals, hosts absent/declining/accepting) looks for PANIC/HANG/CRASH on the real code.",
+  "text": "proof (partial: per component, not for a model of the whole runtime). Theorems in coq/Properties/C07.v: for ALL operand values the index/length arithmetic and slicing at every inventoried panic site reachable from execute_current_instruction cannot reach its Panic point -- GarnishNumber operations (shift counts, MIN / -1, zero divisors), number->usize casts, equality/make_list register arithmetic, item getters and index_list/char/byte/symbol list on both stores (negative, fractional, NaN, huge indexes), range length / range access / make_range, ~# range->list, Simple's end_list placement, association probing and slice-of-concatenation window, the iterators, Basic's block-relative addressing, extents (reversed, clamped), association/end_list/conversion slices, pop_frame, binary search, reallocation copy, bytes->i32, the depth bound of the recursive renderers -- each under the part of the store invariant it names; for BasicGarnishData these hypotheses are additionally DISCHARGED for every reachable store of Model/BasicStore.v (fresh store with progressing growth settings, then any history of the C15 operation vocabulary): theorems C07_*_reachable derive block bounds, list runs, frame indexes from the invariant C15 proves (Proofs/C07/Reachable.v) and text runs, Char/Byte cell kinds and association counts from a strengthened invariant proved preserved by every operation (Proofs/C07/TextInv.v, for histories whose text operations write the character count as header; C07_text_invariant_needs_wf shows the side condition is necessary); a run of a machine whose step is safe never panics (C07_run_from_step); C07_full_statement (one step of the real runtime from the global store invariant) stays a Definition. The inventory of potential panic sites (unwrap/expect/indexing/slicing/panicking macros/usize arithmetic/casts/std calls that panic/recursion) is regenerated from /repo on every run and every site must be classified in tools/panic_map.json (model+lemma, argument, out of scope as verified against the name-based call graph); the index models are run against both data implementations; a boundary-value search (every instruction x operand type pairs x boundary values, every ~# cast, nested slices/concatenations, 10^5-deep data, grammar-generated programs with boundary literals, hosts absent/declining/accepting) looks for PANIC/HANG/CRASH on the real code.",
   "design_ref": "DESIGN.md section 8 C07"
  },
- "level_note": "Trusted: Coq kernel; Flocq's four standard-library axioms (through Model/Num.v); the scanner tools/sync/panicsites.py (syntactic, not a Rust front end: macro-generated code and trait objects are invisible to it), its re-matching rule (a site whose line was rewritten inherits the classification of the stale map entry it replaces only when, per file/function/kind, exactly as many sites appeared as disappeared, or a new helper is called by the single function that lost them; an added site never matches; a re-matched `model` site relies on the correspondence and boundary search of the same run) and the hand-written arguments in tools/panic_map.json; extraction (ExtrOcamlBasic only); the Rust harness. Not modelled: the text rendered by ~# conversions (only index arithmetic and recursion depth), the store invariants themselves (C15/C19 own them; here they are hypotheses), usize addition overflow, allocation failure, native stack depth of non-recursive code. Seven defects were fixed in /repo (see known_findings.json); known finding C07-K1 (listing or rendering a range of 2^31 or more positions exhausts time and memory) is re-confirmed on every run and excluded.",
+ "level_note": "Trusted: Coq kernel; Flocq's four standard-library axioms (through Model/Num.v); the scanner tools/sync/panicsites.py (syntactic, not a Rust front end: macro-generated code and trait objects are invisible to it), its re-matching rule (a site whose line was rewritten inherits the classification of the stale map entry it replaces only when, per file/function/kind, exactly as many sites appeared as disappeared, or a new helper is called by the single function that lost them; an added site never matches; a re-matched `model` site relies on the correspondence and boundary search of the same run) and the hand-written arguments in tools/panic_map.json; extraction (ExtrOcamlBasic only); the Rust harness. Not modelled: the text rendered by ~# conversions (only index arithmetic and recursion depth). Store invariants: discharged for stores reachable through the C15 operation vocabulary (the C07_*_reachable theorems); they remain HYPOTHESES for stores produced by operations outside that vocabulary (merge_to_symbol_list and SymbolList runs, the add_*_from conversions including the delegate's in-place header patch, optimize / clone (C19)), for growth settings that cannot make progress or have an item limit (C15's side condition), and the theorems about SimpleGarnishData need no store hypothesis at all (Vec-backed, every access checked); usize addition overflow, allocation failure, native stack depth of non-recursive code. Seven defects were fixed in /repo (see known_findings.json); known finding C07-K1 (listing or rendering a range of 2^31 or more positions exhausts time and memory) is re-confirmed on every run and excluded.",
  "technique": "Coq proofs (lia / induction) over executable index models + panic-site inventory tie + differential correspondence + boundary-value search on the Rust implementation"
 }
 
@@ -23,7 +23,8 @@ TRUSTED = vplib.BASE_TRUSTED + [
     "only when per file/function/kind exactly as many sites appeared as disappeared (paired in source order), or when a function with no map entry is called by "
     "the single function of the same file that lost at least as many equally classified sites of that kind; re-matched sites are listed in Gen/PanicSites.v "
     "(rematched_sites), in the evidence and as NOTE lines; for class `model` the inherited theorem is about the model, so the claim rests on this run's correspondence and boundary search",
-    "store invariants (block layout, runs inside the data cursor, frame cells preceded by jump points, Char/Byte cells after CharList/ByteList headers) are hypotheses of the Basic theorems; C15/C19 establish them",
+    "store invariants (block layout, runs inside the data cursor, frame cells preceded by jump points, Char/Byte cells after CharList/ByteList headers): hypotheses of the C07_<name> Basic theorems, discharged in the C07_<name>_reachable theorems from C15's invariant G (Proofs/C15, imported, not edited) and the strengthening X of Proofs/C07/TextInv.v, for the C15 history vocabulary with progressing settings and character-count headers",
+    "Model/BasicStore.v (C15's model of BasicGarnishData, tied to the code by C15's store correspondence) and the correspondence view/hlen between its nat-valued blocks and Model/RuntimeIndex.v's N-valued ones (Proofs/C07/Reachable.v)",
 ]
 PROOF_DIRS = ["Proofs/C07"]
 NPROC = 16
@@ -193,7 +194,7 @@ def check_operator_impls_unused(v):
 def run(tier, seed):
     v = Verdict(PID, tier, seed)
     v.assumptions = [
-        "the store invariants named in the Basic theorems (block layout; runs inside the data cursor; frame cells follow jump points) hold in every reachable state (C15/C19)",
+        "the store invariants named in the Basic theorems hold for every store reachable through the C15 operation vocabulary (proved: C07_*_reachable); for stores produced by other operations (conversions, merge_to_symbol_list, optimize, clone) they are assumed",
         "usize addition does not overflow and allocation succeeds (2^64 cells are unreachable); listing or rendering 2^31 or more positions of a range is a resource question (known finding C07-K1)",
         "hosts follow the documented callback contract (push exactly one register when answering true)",
         "programs are stepped a bounded number of times (%d)" % PROGRAM_STEPS,
@@ -223,6 +224,10 @@ def run(tier, seed):
         pr, "make -C coq Properties/C07.vo && coqc Properties/C07.v (Print Assumptions) && tools/props/c07.py (inventory, correspondence, boundary search)", TRUSTED))
     v.coverage["theorems"] = {
         "proved_per_component": [p for p in pr.get("props", []) if p.startswith("C07_") and not p.startswith("C07_ex")],
+        "reachable_store_theorems": [p for p in pr.get("props", []) if p.endswith("_reachable") or p.endswith("_reaches")],
+        "still_hypotheses": "progressing growth settings without item limit (C15's side condition); text headers equal to the character count (wf_op; shown necessary by "
+                            "C07_text_invariant_needs_wf); stores built by operations outside the C15 vocabulary (merge_to_symbol_list / SymbolList runs, add_*_from "
+                            "conversions, optimize, clone); list_item_in_range needs len < 2^31; simple_concat_slice_window needs i32 bounds (the type's range)",
         "full_statement": "C07_full_statement is a Definition (not proved for a model of the whole runtime); C07_run_from_step proves it from the one-step premise",
         "refuted_witnesses_for_fixed_code": "C07_fixed_defects_refuted (models of the code before each fix: commit reach their Panic point)",
     }
